@@ -6,6 +6,11 @@ import json, os, subprocess, sys
 HERE = os.path.dirname(os.path.abspath(__file__))
 REPO = "/repo"
 vs = json.load(open(os.path.join(HERE, "fixtures", "variants.json")))
+import shutil, tempfile
+EV = os.path.join(HERE, "evidence")
+_bak = tempfile.mkdtemp(prefix="vf-evidence-bak-", dir=os.path.join(HERE, ".cache"))
+if os.path.isdir(EV):
+    shutil.copytree(EV, os.path.join(_bak, "evidence"))
 sel = sys.argv[1:]
 bad = 0
 for v in vs:
@@ -26,5 +31,11 @@ for v in vs:
         print("%s %-28s rc=%d %s" % (status, v["name"], r.returncode, (fired[0].strip()[:230] if fired else out.strip().splitlines()[-1][:230])))
     finally:
         open(path, "w").write(src)
+# evidence files must describe the unchanged tree: put back what was there before the variants ran
+if os.path.isdir(os.path.join(_bak, "evidence")):
+    shutil.rmtree(EV, ignore_errors=True)
+    shutil.copytree(os.path.join(_bak, "evidence"), EV)
+shutil.rmtree(_bak, ignore_errors=True)
+shutil.rmtree(os.path.join(HERE, "out", "violations"), ignore_errors=True)
 print("variants not detected / skipped:", bad)
 sys.exit(1 if bad else 0)
